@@ -631,7 +631,9 @@ def compare_fl32(ctx, c, obs, rep, N):
     bt = m / N
     for j in range(cols):
         ctx.dist("fl32_guard:" + ("inside" if guard[j] else "outside"))
-        if guard[j] and (k1_col[j] or P_sub[j]):
+        # (a subnormal ENTRY does not contradict the guard: NormalCol bounds entries relative to the bucket, and the theorem is about
+        # the executed model, which has no denormals-are-zero; such columns stay classified as K2 below)
+        if guard[j] and k1_col[j]:
             ctx.disagree("fl32.guard", slim(c), "flush regime (K1/K2) by the harness classification", "NormalCol holds",
                          f"column {j}: the theorem's guard holds for a column the harness treats as a flush regime")
     if any(v[3] for v in variants.values()):
